@@ -235,7 +235,18 @@ func buildWorldUnsafe(wp worldParams) *world {
 		for j := range xs {
 			xs[j] = int(r.Next() % 20)
 		}
-		w.sets = append(w.sets, sortints.NewSortedInts(xs...))
+		set := sortints.NewSortedInts(xs...)
+		if i%2 == 1 {
+			// a shared value with spare capacity behind it (filled with a pattern): a function
+			// that uses the spare room of an argument as scratch writes to shared memory
+			grown := make(sortints.SortedInts, len(set), len(set)+8)
+			copy(grown, set)
+			for j := len(set); j < cap(grown); j++ {
+				grown[:cap(grown)][j] = -7000 - j
+			}
+			set = grown
+		}
+		w.sets = append(w.sets, set)
 	}
 	for i := range w.chans {
 		w.chans[i] = make(chan []int, wp.chanCap[i])
@@ -261,7 +272,10 @@ func snapshot(w *world) string {
 	fmt.Fprintf(&b, "dense %d %d %v %v|", w.dense.NumberOfVertices, w.dense.NumberOfEdges, w.dense.DegreeSequence, w.dense.Edges)
 	fmt.Fprintf(&b, "sparse %d %d %v %v|", w.sparse.NumberOfVertices, w.sparse.NumberOfEdges, w.sparse.DegreeSequence, w.sparse.Neighbourhoods)
 	enc, err := w.dawg.GobEncode()
-	fmt.Fprintf(&b, "dawg %x %v|sets %v|words %q", enc, err, w.sets, w.wordList)
+	fmt.Fprintf(&b, "dawg %x %v|sets %v|words %q|", enc, err, w.sets, w.wordList)
+	for _, x := range w.sets {
+		fmt.Fprintf(&b, "cap %v|", []int(x[:cap(x)]))
+	}
 	return b.String()
 }
 
